@@ -8,6 +8,8 @@
     morphing/iterable_provider.py   iter_loader_dt_sc / iter_loader_dt (DebugTrail.ALL), dumper
     morphing/model/*                generated model loader / dumper (DebugTrail.ALL, default name layout:
                                     dict crown, extra fields skipped, defaults `None`)
+    morphing/enum_provider.py       EnumNameProvider / EnumExactValueProvider loaders and dumpers (plain `Enum`
+                                    classes with hashable values and the default `_missing_`)
     morphing/facade/retort.py       load = get_loader(tp)(data), dump, replace, extend
   Only `DebugTrail.ALL` retorts are modelled.  Where the behaviour of a closure
   on an ill-typed datum is not modelled the outcome is `unmodelled` (the
@@ -26,6 +28,7 @@ inductive Val where
   | tuple (xs : List Val)
   | dict (kvs : List (String × Val))
   | obj (cid : Nat) (fields : List (String × Val))
+  | enum (cid : Nat) (name : String)        -- the member `name` of the Enum class `cid`
   deriving Repr, Inhabited
 
 /-- exception class and the classes of its sub-exceptions -/
@@ -64,6 +67,7 @@ def truthy : Val → Bool
   | .tuple xs => !xs.isEmpty
   | .dict kvs => !kvs.isEmpty
   | .obj _ _ => true
+  | .enum _ _ => true
 
 def hasDigitish (s : String) : Bool :=
   s.toList.any fun c => c.isDigit || c == '_' || c == '+' || c == '-' || c.isWhitespace
@@ -124,7 +128,33 @@ def valClasses (U : Univ) : Val → List Nat
   | .int _ => [U.intUid]
   | .str _ => [U.strUid]
   | .obj c _ => [c]
+  | .enum c _ => [c]
   | _ => []
+
+def enumMembers (U : Univ) (cid : Nat) : List (String × LitVal) :=
+  match U.kind cid with
+  | .enum ms => ms
+  | _ => []
+
+def litToVal (U : Univ) : LitVal → Val
+  | .int i => .int i
+  | .bool b => .bool b
+  | .str c => .str (U.strOf c)
+
+/-- `mapping[data]` of the enum dumpers, `mapping` keyed by the members of `cid` (plain `Enum` members are equal
+    only to themselves): the member's entry, `KeyError` for another hashable object, `TypeError` for an unhashable
+    one (list, dict, an `eq=True` dataclass instance); tuples are not modelled -/
+def enumDump (U : Univ) (cid : Nat) (pick : String × LitVal → Val) (v : Val) : Outcome :=
+  match v with
+  | .enum c n =>
+    if c == cid then
+      match (enumMembers U cid).find? (fun m => m.1 == n) with
+      | some m => .ok (pick m)
+      | none => leafRaise "KeyError"
+    else leafRaise "KeyError"
+  | .none | .bool _ | .int _ | .str _ => leafRaise "KeyError"
+  | .list _ | .dict _ | .obj _ _ => leafRaise "TypeError"
+  | .tuple _ => .unmodelled
 
 /-- Calling a closure.  `env` binds the recursion stubs (`FuncWrapper.set_func`). -/
 def run (U : Univ) : Nat → List (Nat × Clo) → Clo → Val → Outcome
@@ -235,6 +265,25 @@ def run (U : Univ) : Nat → List (Nat × Clo) → Clo → Val → Outcome
         | .error o => o
         | .ok vs => .ok (mkSeq origin vs)
       | _ => .unmodelled
+    | .enumNameL cid =>
+      -- `try: return mapping[data]` / `except KeyError | TypeError: raise BadVariantLoadError`
+      match v with
+      | .str s =>
+        match (enumMembers U cid).find? (fun m => m.1 == s) with
+        | some m => .ok (.enum cid m.1)
+        | none => leafLoad "BadVariantLoadError"
+      | .tuple _ | .enum _ _ => .unmodelled
+      | _ => leafLoad "BadVariantLoadError"
+    | .enumNameD cid => enumDump U cid (fun m => .str m.1) v
+    | .enumExactL cid =>
+      -- `value_to_member[data]`: a dict lookup, i.e. `data == member.value` (and equal hashes)
+      match v with
+      | .tuple _ | .enum _ _ => .unmodelled
+      | _ =>
+        match (enumMembers U cid).find? (fun m => litValueMatch U v m.2) with
+        | some m => .ok (.enum cid m.1)
+        | none => leafLoad "BadVariantLoadError"
+    | .enumExactD cid => enumDump U cid (fun m => litToVal U m.2) v
 
 /-! ### Facade operations, histories, observations -/
 
